@@ -8,29 +8,6 @@ Require Import QV.common.Util QV.C18.Model QV.C18.Spec QV.C18.Proofs_alist QV.C1
                QV.C18.Proofs_frame_awg QV.C18.Proofs_dev.
 Import ListNotations.
 
-Definition memNN (p : N * N) (l : list (N * N)) : bool :=
-  existsb (fun q => N.eqb (fst p) (fst q) && N.eqb (snd p) (snd q)) l.
-
-(* generators on which the members of the wiring of id differ between two channel maps *)
-Definition changed_gens (id : N) (cm cm' : list (N * list sch)) : list N :=
-  filter (fun a => negb (same_members sch_full_eqb (on_awg a (get_set id cm)) (on_awg a (get_set id cm'))))
-         (map s_awg (get_set id cm ++ get_set id cm')).
-
-(* dirty pairs (name, generator) after operation o executed in state st *)
-Definition ptrack_awg (dm : dims) (st : state) (o : op) (dl : list (N * N)) : list (N * N) :=
-  let (st', e) := step dm st o in
-  match o with
-  | OSetChannel id _ _ | ORmChannel id =>
-      flat_map (fun n => map (fun a => (n, a)) (changed_gens id (chmap st) (chmap st'))) (users_ch (regs st) id) ++ dl
-  | ORegister name _ _ _ _ => match e with None => filter (fun q => negb (N.eqb (fst q) name)) dl | Some _ => dl end
-  | ORemove name => filter (fun q => negb (N.eqb (fst q) name)) dl
-  | OClear => []
-  | _ => dl
-  end.
-
-Fixpoint prun (dm : dims) (st : state) (dl : list (N * N)) (h : list op) : list (N * N) :=
-  match h with [] => dl | o :: r => prun dm (fst (step dm st o)) (ptrack_awg dm st o dl) r end.
-
 (* ---- small facts -------------------------------------------------------------------------------------------------- *)
 Lemma memNN_In p l : memNN p l = true <-> In p l.
 Proof.
